@@ -448,6 +448,25 @@ func (s *Server) Snapshot() []Msg {
 	return out
 }
 
+// AckedStamp reports whether a record whose "log" field carries the given stamp is in a message that was acknowledged
+// (stampOf extracts the stamp from the field). Scans backwards: pacing clients ask about recent records.
+func (s *Server) AckedStamp(stamp string, stampOf func(string) string) bool {
+	s.mu.Lock()
+	defer s.mu.Unlock()
+	for i := len(s.msgs) - 1; i >= 0; i-- {
+		m := s.msgs[i]
+		if !m.AckSent {
+			continue
+		}
+		for _, e := range m.Entries {
+			if l, ok := e.Record["log"].(string); ok && stampOf(l) == stamp {
+				return true
+			}
+		}
+	}
+	return false
+}
+
 // Events returns the server's own log (for witnesses).
 func (s *Server) Events() []string {
 	s.mu.Lock()
